@@ -225,7 +225,8 @@ def task(args):
     kind, n, tier, part, nparts = args
     p = Partial()
     epochs = (0, 1, 2, 3)
-    Ws = (1, 2, 3, 4)
+    # world sizes incl. more than twice the dataset size (padding longer than the draw wraps around several times)
+    Ws = (1, 2, 3, 4, 7, 9) if kind == "distributed" else (1, 2, 3, 4)
     max_lay = 40 if tier == "quick" else 400
     for li, lay in enumerate(layouts(kind, n)):
         if li >= max_lay:
@@ -311,7 +312,7 @@ def run(run):
     run.pmap(task, tasks)
     run.pmap(random_sampler_task, [0])
     run.exhaustive = run.counters.get("permutation_enumeration_capped", 0) == 0
-    run.extra.update(bounds=dict(n=f"1..{N}", world_sizes="1..4", epochs="0..3", seeds="0..2", num_repeats="1..3",
+    run.extra.update(bounds=dict(n=f"1..{N}", world_sizes="1..4 (distributed: also 7, 9)", epochs="0..3", seeds="0..2", num_repeats="1..3",
                                  permutation_answers="all for n<=4 (cap 300 answer sequences per configuration)"))
     run.assumptions += [
         "the world-size-1 stream of the same sampler is taken as the single global draw (its own validity is checked separately)",
